@@ -1516,13 +1516,12 @@ def generate(rng, tier, mult):
             else:                   # the whole argument list as ONE positional / the kwargs as one dict argument
                 calls.append(_call([["T", p0]] if rng.random() < 0.5 else p0 + [["D", [[["s", nm], v] for nm, v in k0]]], []))
         cases.append({"kind": "memo", "args": calls})
-    # DiskCache file names (_pickle_key of the key) in two interpreters.  Values whose key holds a frozenset with a
-    # seed dependent iteration order are generated only as the fixed, verified witnesses below (whether two given
-    # seeds produce different orders is a coincidence the model cannot predict).
+    # DiskCache file names (_pickle_key of the key) in two interpreters (fixed witnesses with seed dependent frozensets
+    # plus every fourth pair value)
     for v in PICKLE_WITNESSES:
         cases.append({"kind": "pickle", "v": v})
     for j, c in enumerate(list(cases)):
-        if c["kind"] == "pair" and c["fp"] and j % 4 == 0 and not _seed_dep(c["v"]):
+        if c["kind"] == "pair" and c["fp"] and j % 4 == 0:
             cases.append({"kind": "pickle", "v": c["v"]})
     # all keys of this run in ONE second interpreter
     reqs = []
@@ -1629,17 +1628,14 @@ def _is_ok(side):
 
 
 def finding_id(c, impl_obs, kind):
-    """A known id only when BOTH the input class and the observed failure are those of that finding's mechanism:
-         sorted-typeerror-incomparable-keys   : a TypeError where a key was due, on a value with incomparable sort keys
-         pandas-key-loses-index-dtype-order   : DIFFERENT values (one holding a Series/DataFrame) with EQUAL keys
-         sorted-partial-order-frozenset-keys  : EQUAL values with DIFFERENT keys (frozenset sort keys)
-         diskcache-pickle-key-hashseed-frozenset : pickle cases with a seed dependent frozenset
-       Anything else - in particular different values sharing a key without pandas - is a new violation."""
+    """The one remaining known finding, matched by its own mechanism only:
+         pandas-key-loses-index-dtype-order : DIFFERENT values (one holding a Series/DataFrame) with EQUAL keys
+       (in memo cases: a stored result returned for another call that involves pandas values).
+       Anything else is a new violation."""
     k = c["kind"]
     if k == "pickle":
-        return "diskcache-pickle-key-hashseed-frozenset" if _seed_dep(c["v"]) else None
+        return None
     if k == "memo":
-        # the only way a memo case fails is a stored result returned for another call
         return "pandas-key-loses-index-dtype-order" if any(_feat_pandas(x) for x in c["args"]) else None
     v, w = c["v"], c["w"]
     if not isinstance(impl_obs, list):
@@ -1647,25 +1643,18 @@ def finding_id(c, impl_obs, kind):
     if k == "rekey":
         if len(impl_obs) != 2 or impl_obs[0] != ["bool", 1]:
             return None
-        collide, split = impl_obs[1] == ["bool", 1], impl_obs[1] == ["bool", 0]
+        collide = impl_obs[1] == ["bool", 1]
     else:
         if len(impl_obs) != 5:
             return None
         sv, sw, eq = impl_obs[0], impl_obs[1], impl_obs[2]
-        for side, val in ((sv, v), (sw, w)):
-            if side == ["err", "TypeError"]:
-                return "sorted-typeerror-incomparable-keys" if _feat_incomparable(val) else None
-            if _is_ok(side) and side[1] == ["bool", 0]:
-                return None
-        if not (_is_ok(sv) and _is_ok(sw)) or impl_obs[3] != ["bool", 1] or impl_obs[4] != ["bool", 1]:
+        if not (_is_ok(sv) and _is_ok(sw)) or sv[1] != ["bool", 1] or sw[1] != ["bool", 1]:
             return None
-        collide, split = eq == ["bool", 1], eq == ["bool", 0]
-    same = _same(v, w)
-    if collide and not same:
-        return "pandas-key-loses-index-dtype-order" if _feat_pandas(v) or _feat_pandas(w) else None
-    if split and same:
-        if _feat_partial(v) or _feat_partial(w):
-            return "sorted-partial-order-frozenset-keys"
+        if impl_obs[3] != ["bool", 1] or impl_obs[4] != ["bool", 1]:
+            return None
+        collide = eq == ["bool", 1]
+    if collide and not _same(v, w) and (_feat_pandas(v) or _feat_pandas(w)):
+        return "pandas-key-loses-index-dtype-order"
     return None
 
 
